@@ -243,12 +243,13 @@ fn c08_poke_reaches_display_copy() {
 static mut SCRIPT: [usize; 4] = [0; 4];
 static mut SCRIPT_PC: [u16; 4] = [0; 4];
 static mut SCRIPT_POS: usize = 0;
+static mut SCRIPT_LIMIT: usize = 4;
 
 /// Replacement for `Z80::emulate`: the i-th instruction of a fixed (symbolic) program takes
 /// SCRIPT[i] T-states and ends at PC SCRIPT_PC[i].
 fn scripted_cpu_step<B: rustzx_z80::Z80Bus>(_cpu: &mut Z80, bus: &mut B) {
     unsafe {
-        kani::assume(SCRIPT_POS < 4);
+        kani::assume(SCRIPT_POS < SCRIPT_LIMIT);
         let d = SCRIPT[SCRIPT_POS];
         let pc = SCRIPT_PC[SCRIPT_POS];
         SCRIPT_POS += 1;
@@ -287,6 +288,8 @@ fn slicing_body(mode: u8) {
             i += 1;
         }
         SCRIPT_POS = 0;
+        // the maximum-speed loop re-enters the frame loop after every frame: 3 instructions keep it affordable
+        SCRIPT_LIMIT = if mode == 2 { 3 } else { 4 };
     }
     let limit = Duration::from_millis(kani::any::<u16>() as u64);
     let mut frames_seen = 0usize;
@@ -431,3 +434,82 @@ fn c16_slicing_breakpoint_and_resume() {
     slicing_body(3);
 }
 
+// ---- snap-agent: C15 load_rom ------------------------------------------------------------------
+use crate::emulator::snapshot::sna::verif_hooks::{Fault as SnapFault, SparseAsset as SnapAsset, CTX as SNAP_CTX, NO_WITNESS as SNAP_NO_WITNESS};
+use crate::host::{RomFormat, RomSet};
+
+/// ROM set handing out up to two sparse page assets (sizes / witness / fault chosen by the harness)
+struct VRomSet {
+    sizes: [usize; 2],
+    count: usize,
+    next: usize,
+    wval: u8,
+    woff: usize,
+    fault_on: usize,
+    fault: SnapFault,
+}
+
+impl RomSet for VRomSet {
+    type Asset = SnapAsset;
+    fn format(&self) -> RomFormat {
+        RomFormat::Binary16KPages
+    }
+    fn next_asset(&mut self) -> Option<SnapAsset> {
+        if self.next >= self.count {
+            return None;
+        }
+        let i = self.next;
+        self.next += 1;
+        let mut a = SnapAsset::new(self.sizes[i], [0; 27], [0; 4], self.woff, self.wval);
+        if i == self.fault_on {
+            a.fault = self.fault;
+        }
+        Some(a)
+    }
+}
+
+// @harness
+// @prop C15
+// @tier quick
+// @timeout 900
+// @fn Emulator::load_rom; Emulator::load_rom_binary_16k_pages; LoadableAsset::read_exact; ZXMemory::rom_page_data_mut
+// @sym witness byte value; enumerated: machine, number of page assets offered 0..2, asset sizes {0, 16383, 16384, 20000}, failing / short-reading / prematurely ending asset
+// @assert no panic; Ok exactly when every ROM page of the machine got an asset of at least 16384 bytes that did not fail (a short read is retried), Err(MoreAssetsRequired / UnexpectedEof / host error) otherwise; on Ok the witness byte of ROM page 0 is what the asset held
+// @bound 14 concrete configurations
+// @outside bytes of the ROM image outside the witness (one slice copy per page)
+#[kani::proof]
+#[kani::unwind(29)]
+fn c15_load_rom_total() {
+    // (128K?, assets offered, size0, size1, faulty asset (9 = none), fault kind, expect Ok)
+    let cases: [(bool, usize, usize, usize, usize, u8, bool); 14] = [
+        (false, 0, 0, 0, 9, 0, false),
+        (false, 1, 16384, 0, 9, 0, true),
+        (false, 1, 16383, 0, 9, 0, false),
+        (false, 1, 0, 0, 9, 0, false),
+        (false, 2, 20000, 16384, 9, 0, true),
+        (false, 1, 16384, 0, 0, 0, false),
+        (false, 1, 16384, 0, 0, 1, true),
+        (false, 1, 16384, 0, 0, 2, false),
+        (true, 1, 16384, 0, 9, 0, false),
+        (true, 2, 16384, 16384, 9, 0, true),
+        (true, 2, 16384, 16383, 9, 0, false),
+        (true, 2, 16384, 16384, 1, 0, false),
+        (true, 2, 16384, 16384, 1, 1, true),
+        (true, 0, 0, 0, 9, 0, false),
+    ];
+    let mut i = 0;
+    while i < 14 {
+        let (big, count, s0, s1, fault_on, kind, want_ok) = cases[i];
+        let machine = if big { ZXMachine::Sinclair128K } else { ZXMachine::Sinclair48K };
+        let wval: u8 = kani::any();
+        let rom = VRomSet { sizes: [s0, s1], count, next: 0, wval, woff: 0x3FFF, fault_on, fault: SnapFault { at: 0, kind, n: 100 } };
+        let mut e = mk_emulator(machine, SNAP_CTX);
+        let r = e.load_rom(rom);
+        kani::assert(r.is_ok() == want_ok, "c15.rom.ok_iff_all_pages_supplied");
+        if want_ok {
+            kani::assert(e.peek(0x3FFF) == wval, "c15.rom.page0_witness");
+        }
+        i += 1;
+    }
+    kani::cover!(true, "all configurations done");
+}
